@@ -318,9 +318,23 @@ def misc(ctx, prog):
     for mod, ty in ((SP, "Split"), (SP, "RSplit"), (ST, "SplitTerminator"), (ST, "RSplitTerminator")):
         b = ctx.anchor(prog, mod + ty + "::remainder")
         if b is not None:
-            ps = sym.paths_of(b, prog)
-            if len(ps) != 1 or ps[0].value != ("field", ("deref", ("p", 1)), 0):
-                ctx.violation("DLG", "%s|%s::remainder" % (prog.config, ty), "remainder() returns %s" % show(ps[0].value), b.file())
+            ps = [p for p in sym.paths_of(b, prog) if p.kind != "unreachable"]
+            me = ("deref", ("p", 1))
+            bad = None
+            for p in ps:
+                if p.kind == "return" and p.value == ("field", me, 0):
+                    continue
+                # Finished => the remainder is empty: every row of TAB-SPLIT that enters Finished ("Normal, no delimiter: last
+                # piece", "Empty(Continue), exhausted") leaves an empty remainder and no constructor starts there, so answering
+                # "" for a finished Split/RSplit is the same answer
+                fin = mod == SP and any(table.norm_atom(table.strip_gargs(c)) == ("is", ("field", me, 1), 2) for c in p.conds)
+                if p.kind == "return" and fin and isinstance(p.value, tuple) and p.value[0] == "lit" and p.value[1] == b"":
+                    continue
+                bad = p
+            if bad is not None or not ps:
+                ctx.violation("DLG", "%s|%s::remainder" % (prog.config, ty), "remainder() returns %s%s" % (
+                    show(bad.value) if bad is not None and isinstance(bad.value, tuple) else "?",
+                    (" under " + " & ".join(sym.show_atom(c) for c in bad.conds)) if bad is not None and bad.conds else ""), b.file())
             ctx.instance("DLG", "%s|%s::remainder" % (prog.config, ty))
     for mod, ty in ((SP, "Split"), (SP, "RSplit"), (ST, "SplitTerminator"), (ST, "RSplitTerminator")):
         accessors.rebuild(ctx, "ACC", prog, mod + ty + "::copy", nfields=2)
